@@ -1208,9 +1208,13 @@ func TestScale(t *testing.T) {
 			if c.Chance("scale.fewLarge", 1, 3) {
 				n, bodyLen = c.Int("scale.few", 1, 3), c.PickInt("scale.bodyLen", 1<<20, 1<<20+1, 3<<20+7)
 			}
+			big := c.PickInt("scale.oneBigBody", 1<<20+1, 1<<21+5, 1<<20+1) // every run holds one body past 1 MiB
 			for i := 0; i < n; i++ {
 				u := fmt.Sprintf("https://example.com/site/%d", i)
 				body := make([]byte, bodyLen)
+				if i == n/2 {
+					body = make([]byte, big)
+				}
 				core.FillPattern(body, uint64(i)+1)
 				lb.Order[u] = []int{i}
 				lb.Exchanges = append(lb.Exchanges, gen.LExchange{URL: u, Resp: gen.LResp{Status: 200, Body: body,
